@@ -167,5 +167,9 @@ def inlined_body(facts, body, policy=default_policy, depth=3, extra=()):
             ex = set(extra)
             pol = lambda caller, callee, cj: callee in ex or policy(caller, callee, cj)
         j = inline_json(facts, body.j, pol, depth, frozenset([body.path]))
+        if j.get('inlined'):
+            from .thread import thread_returns
+            headers = set(Body(copy.deepcopy(j), facts).loops())
+            thread_returns(facts, j, len(body.j['blocks']), headers)
         cache[key] = Body(j, facts) if j.get('inlined') else body
     return cache[key]
